@@ -21,10 +21,12 @@ from common import api_roots, vec_info, tydef, atom_at, cell_term, TRUSTED_COMMO
 from C02 import common_guard
 
 LEVEL = 'other'
-TECHNIQUE = 'real-field normal forms, guard-predicate matching and constant-endpoint folding over rustc MIR (abstract interpretation)'
-EXPLANATION = ('Decides for all inputs the algebraic and guard clauses of lerp / move_towards / clamp_length / any_ortho* / quaternion lerp sign flip. '
-               'The angle statements about slerp and rotate_towards depend on sin/acos numerics and are not decided.')
-LEVEL_NOTE = 'Decides the structural clauses listed; trigonometric angle accuracy is not claimed. Trusted: rustc MIR, intrinsic table, IEEE-exact rewrites x*1=x, x+0=x, x*0=0 for finite x.'
+TECHNIQUE = 'real-field normal forms with trigonometric relations, guard-predicate matching, constant-endpoint folding and interval accuracy certificates over rustc MIR (abstract interpretation)'
+EXPLANATION = ('Decides for all inputs the algebraic and guard clauses of lerp / move_towards / clamp_length / any_ortho* / quaternion lerp (sign flip by the full dot product, normalised), '
+               'that slerp is the spherical formula (with the lemma: angle from the start = s x total angle, unit / linearly interpolated length), that vector rotate_towards rotates self '
+               'about normalize(self x rhs) by min(A, max(m, A - pi)) and keeps its length on every branch, that from_rotation_arc* maps from onto +-to with O(eps) singular thresholds, and '
+               'certifies the arccos / SSE2 sine polynomials within 1e-6 / 2e-6 by interval analysis.  Angle error near the parallel thresholds is not decided.')
+LEVEL_NOTE = 'Decides the formulas, guards and approximation certificates listed; end-to-end angle error near the degenerate thresholds is not claimed. Trusted: rustc MIR, intrinsic table, IEEE-exact rewrites x*1=x, x+0=x, x*0=0 for finite x.'
 
 CONFIGS_QUICK = ['sse2', 'scalar']
 CONFIGS_THOROUGH = ['sse2', 'scalar', 'coresimd', 'neon', 'wasm32']
